@@ -1,7 +1,9 @@
 #!/bin/bash
-# runs the thorough tier of every check, one after the other; prints exit status and wall time per check
-for n in $(seq -w 1 20); do
-  id=C$n
+# runs the thorough tier of every check (or of the ids given as arguments, in that order), one after the other;
+# prints exit status and wall time per check
+ids="$*"
+[ -z "$ids" ] && ids=$(for n in $(seq -w 1 20); do echo C$n; done)
+for id in $ids; do
   s=$(date +%s)
   timeout 7200 /venv/bin/python run_check.py $id --tier thorough > /tmp/thorough_$id.log 2>&1
   rc=$?
